@@ -198,7 +198,7 @@ func runC10(e *Engine, g G, o RunOpt) RunInfo {
 			}
 		}
 		for _, r := range raws {
-			if strings.Contains(r, nsSM) {
+			if isSMElementRaw(r) {
 				e.Violate("C10", "sm-element-held", "%s: a stream-management element is held for retransmission: %s", when, clip(r, 120))
 				return
 			}
@@ -225,7 +225,7 @@ func runC10(e *Engine, g G, o RunOpt) RunInfo {
 		inQ := map[string]int{}
 		for _, r := range raws {
 			inQ[r]++
-			if strings.Contains(r, nsSM) {
+			if isSMElementRaw(r) {
 				e.Violate("C10", "sm-element-held", "%s: %s", when, clip(r, 120))
 			}
 		}
@@ -332,6 +332,10 @@ func runC10(e *Engine, g G, o RunOpt) RunInfo {
 							id := fmt.Sprintf("m%d", n)
 							msg := stanza.Message{Attrs: stanza.Attrs{Id: id, To: "peer@" + SimDomain}, Body: "held " + id}
 							raw := fmt.Sprintf("<message id='%s' to='peer@%s'><body>raw %s</body></message>", id, SimDomain, id)
+							if n%5 == 4 {
+								// a stanza is a stanza whatever it carries - also an element of the stream-management namespace
+								raw = fmt.Sprintf("<message id='%s' to='peer@%s'><body>raw %s</body><r xmlns='%s'/></message>", id, SimDomain, id, nsSM)
+							}
 							api := st.API
 							if api == "mixed" {
 								api = []string{"Send", "SendRaw"}[n%2]
@@ -599,4 +603,16 @@ func classifyHeldDiff(got, want []string) string {
 		}
 	}
 	return "held-order"
+}
+
+// isSMElementRaw: is the raw string an <r/> or <a/> of XEP-0198 (as opposed to a stanza that merely
+// carries such an element somewhere inside)?
+func isSMElementRaw(raw string) bool {
+	t := strings.TrimLeft(raw, " \t\r\n")
+	for _, p := range []string{"<r ", "<r/", "<r>", "<a ", "<a/", "<a>"} {
+		if strings.HasPrefix(t, p) {
+			return strings.Contains(t, nsSM)
+		}
+	}
+	return false
 }
